@@ -93,13 +93,19 @@ def check_laws(name, res, viol, stats):
                 viol.add('C12-3', f'{name}-grid-raised',
                          f'{name}: next_time_on_grid({q}, {p}) raised')
             elif q == 0:
-                if not close(g['g'], b + p):
+                rb = b if g.get('ref') is None else g['ref']
+                if not close(g['g'], rb + p):
                     viol.add('C12-3', f'{name}-quant-zero',
-                             f'{name}: next_time_on_grid(0, {p}) = {g["g"]} '
-                             f'at beat {b}')
+                             f'{name}: next_time_on_grid(0, {p}, '
+                             f'{g.get("ref")}) = {g["g"]} at beat {b}')
             else:
                 gg = g['g']
                 pm = p % q
+                if g.get('ref') is not None:
+                    b = g['ref']          # explicit reference beat
+                    tol = REL * max(1.0, abs(b))
+                    stats['grid-explicit-ref'] = stats.get(
+                        'grid-explicit-ref', 0) + 1
                 x = (b - bbb - pm) / q
                 amb = x != round(x) and abs(x - round(x)) < 1e-7
                 if gg < b - tol:
@@ -122,6 +128,8 @@ def check_laws(name, res, viol, stats):
                     stats['grid-ambiguous'] = stats.get(
                         'grid-ambiguous', 0) + 1
             # bars
+            b = g['beats']
+            tol = REL * max(1.0, abs(b))
             nb = g['next_bar']
             if nb < b - tol:
                 viol.add('C12-6', f'{name}-next-bar-before',
